@@ -98,34 +98,45 @@ class _GeventProxy:
 
 
 class FakeFile:
-    """What sock.makefile("rw") gives the server: a buffered text file.  On a connection that
-    was reset by the peer, write() still only fills the buffer, flush() fails with EPIPE, and
-    close() - which flushes - fails again while data is pending."""
+    """What sock.makefile(...) gives the server: a buffered file (text, or binary when the mode
+    says so).  On a connection that was reset by the peer, write() still only fills the buffer,
+    flush() fails with EPIPE, and close() - which flushes - fails again while data is pending."""
 
-    def __init__(self, sock):
+    def __init__(self, sock, binary=False):
         self.sock = sock
+        self.binary = binary
         self.pending = False
         self.closed = False
         self.buf = []  # written, not yet flushed: the client has not got it
 
-    def readline(self):
-        item = self.sock.inq.get()
-        if isinstance(item, BaseException):
-            raise item
-        return item
+    def readline(self, *_a):
+        item = self.sock._next_line()
+        return item.encode("utf-8") if self.binary else item
+
+    def __iter__(self):
+        return self
+
+    def __next__(self):
+        line = self.readline()
+        if not line:
+            raise StopIteration
+        return line
 
     def write(self, data):
+        if isinstance(data, (bytes, bytearray)):
+            data = bytes(data).decode("utf-8")
         if self.sock.broken:
             # nobody will ever read it; the oracle still learns what the server meant to answer
-            self.sock.sim._on_response(self.sock, data)
+            self.sock._server_wrote(data)
             self.pending = True
         else:
             self.buf.append(data)
+        return len(data)
 
     def _deliver(self):
         buf, self.buf = self.buf, []
         for data in buf:
-            self.sock.sim._on_response(self.sock, data)
+            self.sock._server_wrote(data)
 
     def flush(self):
         if self.sock.broken and (self.pending or self.buf):
@@ -140,6 +151,12 @@ class FakeFile:
         if self.sock.broken and (self.pending or self.buf):
             raise BrokenPipeError(32, "Broken pipe (connection reset by peer, injected)")
         self._deliver()
+
+    def __enter__(self):
+        return self
+
+    def __exit__(self, *exc):
+        self.close()
 
 
 class FakeSock:
@@ -156,10 +173,59 @@ class FakeSock:
         self.outstanding = []  # FIFO of (rpc, args) awaiting their responses (more than one: pipelined)
         self.reply_cb = None
         self.greenlet = None
+        self._out = ""  # response bytes not yet forming a whole line
+        self._in = b""
 
-    def makefile(self, mode="rw"):
+    def makefile(self, mode="r", *_a, **_kw):
         self.server_seen = True
-        return FakeFile(self)
+        return FakeFile(self, binary="b" in mode)
+
+    # the request side: whole lines as the client sent them, "" at EOF, an exception for a reset
+    def _next_line(self):
+        item = self.inq.get()
+        if isinstance(item, BaseException):
+            raise item
+        return item
+
+    # the response side: the server's bytes reach the client as whole lines
+    def _server_wrote(self, data):
+        self._out += data
+        while "\n" in self._out:
+            line, self._out = self._out.split("\n", 1)
+            self.sim._on_response(self, line + "\n")
+
+    # plain socket calls (a server may talk to the socket directly instead of through makefile)
+    def sendall(self, data, *_a):
+        self.server_seen = True
+        self._server_wrote(bytes(data).decode("utf-8") if isinstance(data, (bytes, bytearray, memoryview)) else data)
+        if self.broken:
+            # (nobody will ever read it; the oracle still learns what the server meant to answer)
+            raise BrokenPipeError(32, "Broken pipe (connection reset by peer, injected)")
+
+    def send(self, data, *_a):
+        self.sendall(data)
+        return len(data)
+
+    def recv(self, bufsize=65536, *_a):
+        self.server_seen = True
+        if not self._in:
+            self._in = self._next_line().encode("utf-8")
+            if not self._in:
+                return b""
+        out, self._in = self._in[:bufsize], self._in[bufsize:]
+        return out
+
+    def settimeout(self, *_a):
+        pass
+
+    def setsockopt(self, *_a):
+        pass
+
+    def getpeername(self):
+        return (self.name, 0)
+
+    def shutdown(self, *_a):
+        pass
 
     def close(self):
         self.closed = True
